@@ -251,3 +251,28 @@ def mc(ctx):
 
 
 RULES.append(mc)
+
+
+@rule("T11", doc="a class that shrinks installs its restricted group BEFORE it re-asserts the symmetries that could not be restricted: those re-entrant unions may rewrite the group, and a store after them would put a stale snapshot back")
+def t11(ctx):
+    crate = ctx.lib()
+    sw = set(C.need("slot-set writer (shrink_slots)", C.slot_writers(crate)))
+    merges = set(C.merge_functions(crate)) | sw
+    reach_m = {b.id for b in crate.fns() if merges & crate.reachable_from([b.id], resolve_traits=False)}
+    n = 0
+    for wid in sw:
+        b = mir.inline_view(crate, crate.bodies[wid], keep=tuple(sorted(reach_m)))
+        stores = [bi for bi, si, s in b.statements() if s["k"] == "assign" and mir.place_has_field(s["lhs"], C.ECLASS, "group") and not b.blocks[bi]["cleanup"]]
+        reent = [c for c in b.calls if c.callee and c.callee.target in reach_m and not b.blocks[c.bb]["cleanup"]]
+        if not stores or not reent:
+            continue
+        n += 1
+        for c in reent:
+            later = [bi for bi in stores if bi in b.reach(b.after(c.bb))]
+            ctx.check(not later, "group-installed-before-reentry:" + C.fkey(crate.bodies[wid]), "%s stores the class's group before the re-entrant %s" % (C.short(wid), c.callee.name),
+                      "%s stores the class's group after calling %s, which can itself change that class's group (the nested shrink-and-retry learns the part of a re-asserted symmetry that survives on the final slots): the outer call overwrites it with the snapshot it computed before — an established symmetry is lost, handles that were equal compare unequal" % (C.short(wid), c.callee.name),
+                      where_of(b, c.bb))
+    ctx.floor("slot-set writers with re-entrant unions", n, 1)
+
+
+RULES.append(t11)
